@@ -742,6 +742,7 @@ func domRfl(r *gen.Rng, n int, thorough bool, o *Out) {
 		}
 	}
 	// Set / Delete on reflected structs and maps at any depth (dom_rset.go)
+	rsetExhaustive(o)
 	// (every case builds fresh struct types, which reflect keeps for ever: the count is capped)
 	nset := 2 * n
 	if nset > 6000 {
